@@ -21,6 +21,17 @@ def AB(na, nb, ranks, **kw):
     d = {'NA': na, 'NB': nb, 'SYM_RANKS': '{%s}' % ','.join(str(r) for r in ranks)}
     d.update(kw); return d
 
+def c01_tri(sels, shapes=((2, 3), (3, 2)), both=True, **meta):
+    # triangular sub-universes (a rule is a candidate iff parent <= every child): DAG-shaped automata with self loops
+    # over 2+3 / 3+2 states, 19..20 free bits
+    out = []
+    for (na, nb) in shapes:
+        for sel in sels:
+            d = AB(na, nb, [0, 1], SEL=sel, BTRI=None, **meta)
+            if both: d['ATRI'] = None
+            out.append(d)
+    return out
+
 def c01_configs(shapes, heavy=False):
     out = []
     for (na, nb, ranks) in shapes:
